@@ -442,3 +442,67 @@ func H_C08_appid() {
 		vAssert("match:same-for-all-pdrs-of-the-direction", p2.appFilter == af)
 	}
 }
+
+var vC08PortBytes = 5
+
+// H_C08_bytes: the port token of a flow description as REAL BYTES: the text is
+// "permit out <proto> from 10.1.0.0/16 <port token> to assigned" with a port
+// token of 1..vC08PortBytes arbitrary printable non-space bytes. The real
+// strings.Fields, strings.Split and strconv.ParseUint run on it (no contract
+// stubs). A byte-level reference decides what the token means: digits = one
+// port <= 65535; digits '-' digits = a range with low <= high; anything else is
+// refused (or, when the token is the word "to", it is the keyword).
+func H_C08_bytes() {
+	n := 1 + vChoose("port_len", vC08PortBytes)
+	b := vBytes("port", n)
+	for _, c := range b {
+		vAssume(vAnd(c > 0x20, c < 0x7f))
+	}
+	tok := string(b)
+	vAssume(tok != "to") // the keyword: a different sentence
+	desc := "permit out 17 from 10.1.0.0/16 " + tok + " to assigned"
+	ipf, err := parseFlowDesc(desc, "10.250.0.5")
+	// reference over the bytes
+	isDigit := func(c byte) bool { return c >= '0' && c <= '9' }
+	num := func(d []byte) (uint64, bool) {
+		if len(d) == 0 {
+			return 0, false
+		}
+		var v uint64
+		for _, c := range d {
+			if !isDigit(c) {
+				return 0, false
+			}
+			v = v*10 + uint64(c-'0')
+		}
+		return v, v <= 65535
+	}
+	dash := -1
+	for k, c := range b {
+		if c == '-' && dash < 0 {
+			dash = k
+		}
+	}
+	var lo, hi uint64
+	var ok bool
+	if dash < 0 {
+		lo, ok = num(b)
+		hi = lo
+	} else {
+		var ok1, ok2 bool
+		lo, ok1 = num(b[:dash])
+		hi, ok2 = num(b[dash+1:])
+		ok = ok1 && ok2 && lo <= hi
+	}
+	vObserve("bytes", err != nil)
+	if ok {
+		vCover("port-accepted")
+		vAssert("well-formed-port-token-accepted", err == nil && ipf != nil)
+		vAssert("source-ports-as-written", vAnd(ipf.src.ports.low == uint16(lo), ipf.src.ports.high == uint16(hi)))
+		vAssert("destination-ports-untouched", ipf.dst.ports.isWildcardMatch())
+		vAssert("protocol-as-written", ipf.proto == 17)
+	} else {
+		vCover("port-refused")
+		vAssert("malformed-port-token-refused", err != nil && ipf == nil)
+	}
+}
